@@ -115,6 +115,8 @@ type Op struct {
 	Vid     string
 	SB, SK  string
 	SVid    string
+	VidRef  int  // 1 / 2: Vid = newest / oldest version id issued so far for (B, K) in this program (resolved by the runner)
+	UpRef   bool // UpID = the id of the first upload created for (B, K) in this program (resolved by the runner)
 	SrcOver bool // spell the copy source with more percent-escapes than needed (the same source for S3)
 	Put     *PutSpec
 	Canned  string
@@ -476,6 +478,32 @@ func parseTags(body []byte) []KV {
 		out = append(out, KV{x.Key, x.Value})
 	}
 	return out
+}
+
+// ResolveRefs fills Vid / UpID of an op from the history of the program (see VidRef, UpRef).
+func (o *Op) ResolveRefs(hist []*Step) {
+	if o.VidRef != 0 {
+		var vids []string
+		for _, s := range hist {
+			if s.Op.B == o.B && s.Op.K == o.K && s.Obs != nil && s.Obs.NewVid != "" {
+				vids = append(vids, s.Obs.NewVid)
+			}
+		}
+		if len(vids) > 0 {
+			o.Vid = vids[len(vids)-1]
+			if o.VidRef == 2 {
+				o.Vid = vids[0]
+			}
+		}
+	}
+	if o.UpRef {
+		for _, s := range hist {
+			if s.Op.Kind == "createUpload" && s.Op.B == o.B && s.Op.K == o.K && s.Obs != nil && s.Obs.NewID != "" {
+				o.UpID = s.Obs.NewID
+				break
+			}
+		}
+	}
 }
 
 // copySource spells bucket/key for x-amz-copy-source; over=true escapes the slashes inside the key and every
